@@ -11,6 +11,7 @@
 #include <random>
 #include <sstream>
 #include <string>
+#include <unistd.h>
 #include <vector>
 
 namespace vh {
@@ -289,6 +290,19 @@ struct Out {
 	}
 	void flush() { fflush(f); }
 };
+
+// size of a file; and cutting a file back to a size (what a crashed child had appended, possibly ending in a partial line)
+inline long fileSize(const std::string& p) {
+	FILE* f = fopen(p.c_str(), "rb");
+	if (!f) return 0;
+	fseek(f, 0, SEEK_END);
+	long n = ftell(f);
+	fclose(f);
+	return n;
+}
+inline void cutBack(const std::string& p, long size) {
+	if (fileSize(p) > size && truncate(p.c_str(), size) != 0) perror("truncate");
+}
 
 inline std::string readFile(const std::string& p) {
 	std::ifstream f(p, std::ios::binary);
